@@ -226,6 +226,10 @@ def classify(case, r):
         return "F-C04-unresolved-columns-of-equal-name-merge"
     if "item:star" in pats and meta != "none":
         return "F-C11-star-over-tables-sharing-a-column-name"
+    if sum(1 for st in case["stmts"] if "from:join" in sqlgen.features(st)) >= 2:
+        # two statements read an unqualified column of the same name over different joins: the two unresolved columns are
+        # one graph node, so whichever resolution comes first (graph, then metadata) is applied to both
+        return "F-C04-unresolved-columns-of-equal-name-merge"
     return None
 
 
